@@ -383,4 +383,6 @@ def gen_case(rng, tier):
         elif r < 0.98:
             direct, dids = [], []
     case["direct"], case["dids"] = direct, dids
+    # run the HISTORY oracle (in-place edits of handed-out arrays) on this case
+    case["history"] = rng.random() < 0.3
     return case
